@@ -222,7 +222,7 @@ func judgeML(g *mlGroup) mlJudgement {
 // c11Multi runs every position; a group that disagrees with the mirror or yields a timing-based verdict is re-run on a
 // spare group (up to three runs).  `listed` is used here for "needs no confirmation by a re-run" (timing-free observation).
 func c11Multi(run *Run, mu *mosnUnderTest, groups []*mlGroup, drain int) int {
-	sh := run.NewShard("From MV Require Import Gen.TransferTokens.\n"+c11Header, "srv_case", "srv_mismatches shutdown_goroutine_has_own_listener")
+	sh := run.NewShard(inlineGen(genTransferTokens)+c11Header, "srv_case", "srv_mismatches shutdown_goroutine_has_own_listener")
 	next := 0
 	take := func() *mlGroup {
 		if next < len(groups) {
